@@ -32,6 +32,14 @@ STREAMS["ignore"] = {
     "selftest": {"good": 'CExcl [mkRule (s2l "**/a") false false] (s2l "x/a") (true, false)', "bad": 'CExcl [mkRule (s2l "**/a") false false] (s2l "x/ab") (true, false)'},
 }
 
+STREAMS["addr"] = {
+    "name": "addr", "corr": "Corr.RunAddr",
+    "selftest": {"good": 'Case ApLocal (s2l "./a") true (Some (mkObs 0 (s2l "./a") (s2l "./a") [] [] [] [] [] [] [] [] []))',
+                 "bad": 'Case ApLocal (s2l "./a/") true (Some (mkObs 0 (s2l "./a/") (s2l "./a/") [] [] [] [] [] [] [] [] []))'},
+}
+_ADDR_ASSUME = [
+    "modelled, not verified: Go's net/url (Parse, String, EscapedPath, ParseQuery, Values.Encode, escaping; Addr/Url.v, bytewise, IP-literal hosts excluded), regexp on the three patterns sourceaddrs and terraform-registry-address use, terraform-registry-address ParseModuleSource, terraform-svchost ForComparison/ForDisplay for ASCII host names (IDNA mapping of non-ASCII names and punycode are outside the model: such inputs go to the Go oracles only), go-versions ParseVersion/String, strings.TrimSpace/ToLower on ASCII; validated on every run: every Parse* entry point and MakeRemoteSource is run on grammar-derived, single-rule-violation and hostile strings and all accessors of the result are compared with the model",
+]
 STREAMS["unpack"] = {"name": "unpack", "corr": "Corr.RunUnpack"}
 _FS_ASSUME = [
     "modelled, not verified: the kernel's path resolution and lstat/stat/mkdir/open(O_CREAT|O_TRUNC)/symlink/chmod/utimensat, Go's os.MkdirAll, filepath.Join/Clean/Rel/Dir on clean absolute paths (FS/FS.v, Slug/Unpack.v); validated on every run: each case executes the real Unpack in a chrooted child whose root is the model's root, and the whole final tree is compared",
@@ -66,7 +74,7 @@ PROPS = {
         "assumptions": _PACK_ASSUME + ["partial on schedules: concurrent Pack calls race on the shared default-rule flags (a Go data race); the theorem covers the reachable flag states, not torn accesses", "C16_history_independent is stated on the abstract ignore walk (Ignore/Prune.v); Pack's walk uses the same decision procedure (Rules.excludes) and is compared with the implementation under both flag states"],
     },
     "C19": {
-        "streams": ["ignore", "pack", "unpack", "resolve"],
+        "streams": ["ignore", "pack", "unpack", "resolve", "addr"],
         "theorems": "C19_rule_file_never_panics (all rule files), C19_pack_terminates_without_dereference (fuel = height of the tree, all trees), total structurally-terminating path resolution; with dereferencing: concrete hazards terminate (Example) and every run is under a watchdog",
         "assumptions": _PACK_ASSUME + ["partial: panics and loops inside net/url, regexp, archive/tar, encoding/json are outside the model; address parsers and manifest loading are exercised by watched runs (resolve/bundle streams), termination of dereferencing Pack in general is observed (20 s watchdog), not proved"],
     },
@@ -122,6 +130,16 @@ PROPS = {
             "the builder-level selection, caching and deprecation capture are in Bundle/Builder.v (find_registry_source), compared with the real builder on scripted worlds (exact call and trace sequences, final registry tables)",
         ],
     },
+    "C06": {
+        "streams": ["addr", "resolve"],
+        "theorems": "C06_local_round_trip, C06_local_resolve_canonical (all strings / all pairs of local values)",
+        "assumptions": _ADDR_ASSUME + ["derived values (ResolveRelative*, Versioned, SourceAddr, FinalSourceAddr) are printed, re-parsed and compared on the implementation by the addr stream's oracle"],
+    },
+    "C07": {
+        "streams": ["addr"],
+        "theorems": "C07_parse_remote_policy, C07_make_remote_source_policy, C07_parse_remote_package_policy, C07_parse_source_policy, C07_parse_final_source_policy (every accepted string / triple on every route satisfies the independent policy predicate), C07_query_normal_form (parse_query o encode_query = stable sort, all argument lists; escaping round trip by a sweep over all 256 byte values)",
+        "assumptions": _ADDR_ASSUME + ["partial: the converse direction (every address following the documented grammar is accepted) is decided per run on the implementation (grammar generator + must-accept oracle) and by correspondence; it is not yet a theorem"],
+    },
     "C11": {
         "streams": ["resolve"],
         "theorems": "C11_abs_unchanged, C11_same_kind_pkg_version, C11_resolve_is_stack_machine, C11_never_escapes, C11_local_denotation, C11_compose, C11_final_source_addr: for all bases/relative paths of any length (induction over segment lists)",
@@ -132,7 +150,7 @@ PROPS = {
     },
 }
 
-HOOK_COMMITS = ["5756dba"]
+HOOK_COMMITS = ["5756dba", "2b026d6", "412ce54"]
 
 # Properties not (yet) claimed.  Kept current as checks are added.
 _NYB = "check not built yet in this development (planned, see DESIGN.md §10); not claimed until its model, theorem and correspondence exist"
